@@ -431,10 +431,17 @@ def driver_guard_rule(F, rep, T):
     if last is None or len(T.c.get("YY_CHECK", [])) != last + 1:
         rep.missing_anchor(rid, "YY_TABLE / YY_CHECK of equal length")
         return
-    A = g1_panic.Analyzer(F, names[0])
-    b = F.bodies[names[0]]
     n = 0
-    for s in g1_panic.collect_sites(F, names[0]):
+    # the driver = Parser::parse and the private (non-action) methods of Parser its loop may have been split into
+    driver = names + sorted(k for k in F.bodies if re.match(r"^dmntk_feel_parser::parser::Parser::(<[^>]*>::)?\w+$", k) and k not in names
+                            and not k.split("::")[-1].startswith("action_") and F.bodies[k].get("kind") != "closure")
+    sites = []
+    for nm in driver:
+        A0 = g1_panic.Analyzer(F, nm)
+        for s0 in g1_panic.collect_sites(F, nm):
+            sites.append((nm, A0, s0))
+    for nm, A, s in sites:
+        b = F.bodies[nm]
         if s.kind != "assert" or "BoundsCheck" not in s.what or not s.ops or len(s.ops) < 2:
             continue
         ln, ix = A.sym(s.ops[0]), A.sym(s.ops[1])
@@ -479,7 +486,7 @@ def driver_guard_rule(F, rep, T):
                 lo, hi = int(m2.group(1)), int(m2.group(2)) - 1
             else:
                 # the range is a promoted constant in MIR: read its end points from the type-checked HIR of the same call (same source line)
-                h = F.hir.get(names[0])
+                h = F.hir.get(nm)
                 for mc, _ in find_hir(h["body"], lambda x: x.get("k") == "MethodCall" and x.get("method") == "contains" and x.get("l") == t[1].get("line")):
                     r = strip(mc["recv"])
                     ends = None
@@ -528,7 +535,20 @@ def driver_decision_rule(F, rep, T):
         rep.missing_anchor(rid, "Parser::parse (HIR)")
         return
     h = F.hir[names[0]]
-    fl = hirflow.Flow(h)
+
+    def driver_helper(callee):
+        """private (non-action) methods of Parser the driver loop delegates to (`action = self.step_default()`): expanded at their call sites"""
+        if not re.match(r"^dmntk_feel_parser::parser::Parser::(<[^>]*>::)?\w+$", callee or "") or callee.split("::")[-1].startswith("action_") or callee in names:
+            return None
+        return F.hir.get(callee)
+    fl = hirflow.Flow(h, inline=driver_helper)
+    # a helper's `return Action::X` (possibly inside Ok(..)) under its conditions is the assignment `action = X` of the single-function form
+    for d0, c0, l0, _callee in fl.helper_returns:
+        d1 = d0
+        while isinstance(d1, tuple) and d1 and d1[0] == "ctor" and isinstance(d1[1], str) and d1[1].endswith(("Result::Ok", "Option::Some")) and len(d1) > 2 and d1[2]:
+            d1 = d1[2][0]
+        if isinstance(d1, tuple) and d1 and d1[0] == "ctor" and isinstance(d1[1], str) and "::Action::" in d1[1]:
+            fl.assigns.append((("local", "action"), ("ctor", d1[1]), c0, c0, l0))
     consts = {k: v for k, v in T.c.items() if isinstance(v, int)}
     ninf, pninf = consts.get("YY_TABLE_N_INF"), consts.get("YY_PACT_N_INF")
     if ninf is None or pninf is None:
